@@ -439,10 +439,13 @@ func core3Prepare(named map[string]*types.StructType, a []string) (*ir.Func, fun
 			case in.row == 73:
 				// (the result type is computed from the operands once they are filled in; the generator gives a getelementptr no getelementptr operands)
 				obj = &ir.InstGetElementPtr{ElemType: in.args[0].ty}
-			case in.row == 74:
-				obj = &ir.InstCall{Typ: types.Void}
-			case in.row == 75:
-				obj = &ir.InstCall{Typ: in.args[0].ty}
+			case in.row >= 74 && in.row <= 81:
+				// call void / call T, plain (74, 75) and with a tail-call marker: tail (76, 77), musttail (78, 79), notail (80, 81)
+				c := &ir.InstCall{Typ: types.Void, Tail: []enum.Tail{enum.TailNone, enum.TailTail, enum.TailMustTail, enum.TailNoTail}[(in.row-74)/2]}
+				if in.row%2 == 1 {
+					c.Typ = in.args[0].ty
+				}
+				obj = c
 			default:
 				panic("harness: bad row")
 			}
@@ -492,7 +495,7 @@ func core3Prepare(named map[string]*types.StructType, a []string) (*ir.Func, fun
 				x.X, x.Y = operand(as[0].ty, as[0].op), operand(as[0].ty, as[1].op)
 			case *ir.InstCall:
 				k := 0
-				if p.in.row == 75 {
+				if p.in.row%2 == 1 {
 					k = 1
 				}
 				x.Callee = operand(nil, as[k].op)
